@@ -46,6 +46,15 @@ Proof. exact new_file_mode. Qed.
 Theorem C15_modes_from_source : x_file_mode = 420 /\ x_dir_mode = 493.
 Proof. split; reflexivity. Qed.
 
+(* converters that select the same file must agree on the package: the generator keys a file by the identity
+   "path" / "path:name" (read from the source: the selector compared in fileManager.Get), and two identities
+   agree exactly when path and name agree *)
+Theorem C15_shared_file_identity_is_package_id : x_filemanager_identity = s2r "PackageID"%string.
+Proof. reflexivity. Qed.
+Theorem C15_same_file_needs_same_package : forall a b, no_colon (fst a) -> no_colon (fst b) ->
+  same_file_accepts a b = true <-> (fst a = fst b /\ snd a = snd b).
+Proof. exact same_file_needs_same_package. Qed.
+
 Print Assumptions C15_output_abs_kept.
 Print Assumptions C15_output_relative_to_declaring_file.
 Print Assumptions C15_cwd_prefix.
@@ -59,3 +68,5 @@ Print Assumptions C15_inferred_name_is_identifier.
 Print Assumptions C15_untouched_elsewhere.
 Print Assumptions C15_new_file_mode.
 Print Assumptions C15_modes_from_source.
+Print Assumptions C15_shared_file_identity_is_package_id.
+Print Assumptions C15_same_file_needs_same_package.
